@@ -6,6 +6,7 @@ package metadata
 // Read-only metadata mode: loads are those of the wrapped backend, nothing is ever written (C02).
 
 //@ func (*readMetadata).Save
+//@ params s _ _ _
 //@ props C02
 //@ ensures.never_writes[C02] calls(metadata.Metadata.Save) == 0 && calls(metadata.Metadata.Clear) == 0 && calls(metadata.Metadata.Load) == 0
 //@ ensures.ok[C02] result == nil
@@ -13,6 +14,7 @@ package metadata
 //@ modifies nothing
 
 //@ func (*readMetadata).Clear
+//@ params s _
 //@ props C02
 //@ ensures.never_writes[C02] calls(metadata.Metadata.Save) == 0 && calls(metadata.Metadata.Clear) == 0 && calls(metadata.Metadata.Load) == 0
 //@ ensures.ok[C02] result == nil
@@ -20,6 +22,7 @@ package metadata
 //@ modifies nothing
 
 //@ func (*readMetadata).Load
+//@ params s vbIds bucketUUID
 //@ props C02
 //@ requires s != nil && s.metadata != nil
 //@ ensures.identical[C02] calls(metadata.Metadata.Load) == 1 && arg(metadata.Metadata.Load, 0, recv) == s.metadata && arg(metadata.Metadata.Load, 0, vbIds) == vbIds && arg(metadata.Metadata.Load, 0, bucketUUID) == bucketUUID
@@ -28,6 +31,7 @@ package metadata
 //@ modifies calls(metadata.Metadata.Load)
 
 //@ func NewReadMetadata
+//@ params metadata
 //@ props C02
 //@ ensures.wraps[C02] typeis(result, "*readMetadata") && as(result, "*readMetadata").metadata == metadata && fresh(as(result, "*readMetadata"))
 //@ modifies nothing
